@@ -124,6 +124,9 @@ struct ical_vevent_s {
 	/* proto typical task */
 	struct echs_task_s t;
 
+	/* whether a UID was given, as opposed to one we could intern */
+	bool uidp;
+
 	/* just to transport the method specified */
 	ical_meth_t meth;
 	/* request status or other status info */
@@ -966,6 +969,7 @@ snarf_fld(struct ical_vevent_s ve[static 1U],
 		break;
 	case FLD_UID:
 		ve->t.oid = intern(vp, ep - vp);
+		ve->uidp = vp < ep;
 		break;
 	case FLD_SUMM:
 		if (ve->t.cmd != NULL) {
@@ -3003,8 +3007,11 @@ make_task(struct ical_vevent_s *ve)
 		return NULL;
 	}
 
-	/* generate a uid on the fly */
-	if (UNLIKELY(!ve->t.oid)) {
+	/* generate a uid on the fly, unless they've given us one that
+	 * we couldn't intern (too long), that task goes without and
+	 * it's up to the caller to turn it down, the command's uid is
+	 * somebody else's */
+	if (UNLIKELY(!ve->t.oid && !ve->uidp)) {
 		ve->t.oid = echs_toid_gen(&ve->t);
 	}
 	/* off-by-one correction of umask, this is to indicate
